@@ -58,16 +58,18 @@ MatChoices(n) ==
                               ELSE {c \in Compositions(n) : Len(c) = 1 \/ Len(c) = n}),
                     pal \in Palettes}
 
-MeshOf(i, n, lay, hasUv, hasN, mats) ==
-    [name |-> NamesPool[i],
+\* Rich (single meshes): also the unnamed mesh, which the harness writes with obj.WriteMesh
+NameChoices(i) == IF Rich THEN {NamesPool[i], ""} ELSE {NamesPool[i]}
+MeshOf(i, name, n, lay, hasUv, hasN, mats) ==
+    [name |-> name,
      idx |-> IdxOf(lay, n),
      pos |-> [j \in 1..NVerts(lay, n) |-> PosOf(i, j - 1)],
      uv |-> IF hasUv THEN [j \in 1..NVerts(lay, n) |-> UvOf(i, j - 1)] ELSE <<>>,
      nrm |-> IF hasN THEN [j \in 1..NVerts(lay, n) |-> NrmOf(i, j - 1)] ELSE <<>>,
      mats |-> mats]
 MeshChoices(i) ==
-    UNION {{MeshOf(i, n, lay, hasUv, hasN, mats) :
-                lay \in Layouts, hasUv \in BOOLEAN, hasN \in BOOLEAN, mats \in MatChoices(n)} :
+    UNION {{MeshOf(i, name, n, lay, hasUv, hasN, mats) :
+                name \in NameChoices(i), lay \in Layouts, hasUv \in BOOLEAN, hasN \in BOOLEAN, mats \in MatChoices(n)} :
            n \in 0..MaxTris}
 
 Init == meshes = <<>>
